@@ -18,7 +18,8 @@ RULE = ("Every public entry point is called with caller-owned arrays in drawn la
         "and precision matrices/means that are snapshotted like any other argument. Oracle: for every argument bytes "
         "(including the whole underlying buffer of a view), dtype, shape, strides and flags are identical before and after, "
         "lists keep length and element identity, and the read-only call returns bitwise the same result as the writable one. "
-        "Non-trivial = at least one array argument is read-only, non-C-contiguous, or the call failed; distinct by SHA-1 of the case.")
+        "Non-trivial = at least one array argument is read-only, non-C-contiguous, or the call failed; distinct by SHA-1 of the case."
+        ' Failing calls include array arguments of undescribed shapes ((T,1)/(1,T)/over-long cost arrays, flattened/3-D weight arrays): contents, shape and strides must survive.')
 ASSUMPTIONS = ["fault injection substitutes the public optimiser entry point under a synchronous stand-in pool (so the fault fires in-process)"]
 
 
@@ -70,7 +71,8 @@ LAYOUTS = st.sampled_from(["C", "C", "F", "strided"])
 def front_case(draw):
     cfg = draw(gen.e2e_config(front=("single", "joint"), max_N=2, max_W=3, max_K=3, t_range=(30, 70), limits=(1, 2, 3),
                               lam_forms=("scalar", "const_matrix", "random_matrix", "asymmetric_matrix"), beta_forms=("scalar", "vector")))
-    cfg["outcome"] = draw(st.sampled_from(["ok", "ok", "ok", "wrong_front_end", "optimiser_fault", "no_donor", "bad_lambda"]))
+    cfg["outcome"] = draw(st.sampled_from(["ok", "ok", "ok", "wrong_front_end", "optimiser_fault", "no_donor", "bad_lambda", "misshapen_argument"]))
+    cfg["misshape"] = draw(st.sampled_from(["beta_column", "beta_row", "beta_column", "lambda_3d", "lambda_flat", "beta_too_long"]))
     cfg["data_layout"] = draw(LAYOUTS)
     cfg["data_readonly"] = draw(st.booleans())
     cfg["param_layout"] = draw(LAYOUTS)
@@ -80,6 +82,7 @@ def front_case(draw):
     cfg["param_byteorder"] = draw(st.sampled_from(["native", "native", "native", "swapped"]))
     cfg["reuse_buffers"] = False
     cfg["prior_calls_on_same_arrays"] = False
+    cfg["prior_run_override"] = None        # the injected fault is counted from the start of the call under test
     if cfg["front"] == "joint":
         # the joint front end documents a per-point array for the switching cost as well
         cfg["beta_form"] = draw(st.sampled_from(["scalar", "vector", "vector"]))
@@ -127,6 +130,29 @@ def _front_call(cfg, readonly, layout_kind, p_readonly, p_layout):
     extra = {"sparsity_weight": lam, "label_switching_cost": beta}
     if outcome == "bad_lambda":
         extra["sparsity_weight"] = "0.11"
+    if outcome == "misshapen_argument":
+        # an array argument of a shape the interface does not describe (a (T,1) column or (1,T) row for the per-pair cost, a
+        # flattened or 3-D weight "matrix"): whatever the library makes of it - an error, or a tolerant reading - the caller's
+        # array keeps its contents, shape and strides
+        kind = cfg.get("misshape", "beta_column")
+        rng = np.random.default_rng(cfg["data_seed"])
+        if kind.startswith("beta"):
+            n = total + (5 if kind == "beta_too_long" else 0)
+            vec = np.round(rng.uniform(0.5, 3.0, size=n), 3)
+            arr = vec.reshape(-1, 1) if kind == "beta_column" else (vec.reshape(1, -1) if kind == "beta_row" else vec)
+            arr = np.array(arr, dtype=np.float64, order="C")
+            if p_readonly:
+                arr.setflags(write=False)
+            extra["label_switching_cost"] = arr
+            snaps.append(ArgSnap(f"label_switching_cost given as {kind} array of shape {arr.shape}", arr))
+        else:
+            mat = np.full((nw, nw), 0.11) + np.round(rng.uniform(0, 0.05, size=(nw, nw)), 3)
+            mat = (mat + mat.T) / 2
+            arr = mat.reshape(nw, nw, 1).copy() if kind == "lambda_3d" else mat.reshape(-1).copy()
+            if p_readonly:
+                arr.setflags(write=False)
+            extra["sparsity_weight"] = arr
+            snaps.append(ArgSnap(f"sparsity_weight given as {kind} array of shape {arr.shape}", arr))
     wrapper = None
     if outcome == "optimiser_fault":
         counter = {"n": 0}
